@@ -42,7 +42,9 @@ TA == <<T(FALSE, FALSE, FALSE, FALSE, FALSE, FALSE),   \* 1  PA   plain
         T(TRUE,  TRUE,  FALSE, TRUE,  FALSE, FALSE),   \* 11 HQM  holder, RI Q Mark()
         T(FALSE, FALSE, FALSE, TRUE,  FALSE, FALSE),   \* 12 PG   Mark() only
         T(TRUE,  FALSE, FALSE, FALSE, TRUE,  FALSE),   \* 13 PO   RI, Mark() int
-        T(TRUE,  FALSE, TRUE,  TRUE,  FALSE, FALSE)>>  \* 14 PDM  RI Primary Mark()
+        T(TRUE,  FALSE, TRUE,  TRUE,  FALSE, FALSE),   \* 14 PDM  RI Primary Mark()
+        T(TRUE,  FALSE, FALSE, FALSE, FALSE, FALSE),   \* 15 PZ1  RI, a field-less (zero-size) struct: cannot carry a custom name
+        T(TRUE,  FALSE, FALSE, TRUE,  FALSE, FALSE)>>  \* 16 PZ2  RI Mark(), field-less too (Go gives all zero-size objects one address)
 
 VARIABLES sc, inj, phase, status, res
 vars == <<sc, inj, phase, status, res>>
